@@ -176,7 +176,9 @@ class Layout(object):
             if idx is not None and idx[0] == 0:
                 return idx[1]
             return Opaque(pyfront.unparse(e))
-        if isinstance(e, (ast.Compare, ast.BoolOp, ast.IfExp, ast.JoinedStr, ast.GeneratorExp, ast.ListComp)):
+        if isinstance(e, (ast.GeneratorExp, ast.ListComp)):
+            return self.comp(e)
+        if isinstance(e, (ast.Compare, ast.BoolOp, ast.IfExp, ast.JoinedStr)):
             return Opaque(pyfront.unparse(e)[:40])
         raise AnalysisError("layout: expression %s (line %s)" % (pyfront.unparse(e)[:50], e.lineno))
 
@@ -467,7 +469,10 @@ class Layout(object):
                 rest = stmts[k + 1:]
                 saved = self.env
                 fell_any = False
+                known = self.truth(st.test)
                 for branch, g in ((st.body, test), (st.orelse, "not (%s)" % test)):
+                    if known is not None and known != (branch is st.body):
+                        continue             # the test is decided by the abstract value
                     self.env = copy.deepcopy(saved)
                     try:
                         self.block(list(branch) + list(rest), guards + [g])
@@ -478,6 +483,62 @@ class Layout(object):
                     raise _Ret()
                 return
             self.stmt(st, guards)
+
+    def truth(self, t):
+        """True / False where the abstract value decides `x is None` / `x is not
+        None` (x known to be None, or known to be a node's list / item / tuple),
+        else None"""
+        if isinstance(t, ast.UnaryOp) and isinstance(t.op, ast.Not):
+            v = self.truth(t.operand)
+            return None if v is None else not v
+        if isinstance(t, ast.Compare) and len(t.ops) == 1 and isinstance(t.ops[0], (ast.Is, ast.IsNot)) and \
+                isinstance(t.comparators[0], ast.Constant) and t.comparators[0].value is None and \
+                isinstance(t.left, ast.Name) and t.left.id in self.env:
+            v = self.env[t.left.id]
+            if v is None:
+                return isinstance(t.ops[0], ast.Is)
+            if isinstance(v, (Src, Tup, Built, Cursor, Iter)):
+                return isinstance(t.ops[0], ast.IsNot)
+        return None
+
+    def comp(self, e):
+        """[elt for x in <symbolic sequence> (for y in (a, b))*]: a list built
+        with one cycle per iteration"""
+        if self.loop is not None or any(g.ifs or g.is_async for g in e.generators):
+            return Opaque(pyfront.unparse(e)[:40])
+        saved = dict(self.env)
+        self.loop = {}
+        try:
+            g0 = e.generators[0]
+            try:
+                self.bind_loop(g0.target, g0.iter)
+            except AnalysisError:
+                return Opaque(pyfront.unparse(e)[:40])
+
+            def unroll(gens):
+                if not gens:
+                    return [self.ev(e.elt)]
+                g = gens[0]
+                seq = self.ev(g.iter)
+                if not isinstance(seq, Tup) or not isinstance(g.target, ast.Name):
+                    raise AnalysisError("layout: comprehension over %s (line %s)" % (
+                        pyfront.unparse(g.iter)[:40], e.lineno))
+                out = []
+                for item in seq.items:
+                    self.env[g.target.id] = item
+                    out.extend(unroll(gens[1:]))
+                return out
+            cyc = unroll(e.generators[1:])
+        finally:
+            self.loop = None
+            self.env = saved
+        if len(cyc) == 1 and isinstance(cyc[0], Elem) and cyc[0].a == 1 and cyc[0].b == 0:
+            return Src(cyc[0].kind)          # [x for x in seq] is seq
+        if any(isinstance(c, Opaque) for c in cyc):
+            return Opaque(pyfront.unparse(e)[:40])
+        b = Built()
+        b.cycle = cyc
+        return b
 
     def run(self):
         try:
@@ -497,12 +558,56 @@ class _Rename(ast.NodeTransformer):
         return n
 
 
-def _expand_helpers(tree, kind, fn, depth=0):
-    """the codec with calls of simple helper methods of its class (`x = self.h(a)`,
-    `a, b = self.h(c)`, `return self.h(a)`; helper = straight-line statements and
-    one final return) replaced by the helper's body - parameters renamed, so the
-    layout interpreter sees one function"""
+def _has_exit(st):
+    return any(isinstance(x, (ast.Return, ast.Raise)) for x in ast.walk(st))
+
+
+def _inlinable(stmts):
+    """statement kinds a helper may consist of: straight-line statements, `if`
+    (with returns / raises inside), loops without an exit"""
+    for st in stmts:
+        if isinstance(st, (ast.Assign, ast.Expr, ast.AugAssign, ast.Return, ast.Raise, ast.Pass)):
+            continue
+        if isinstance(st, ast.If) and _inlinable(st.body) and _inlinable(st.orelse):
+            continue
+        if isinstance(st, (ast.For, ast.While)) and not _has_exit(st):
+            continue
+        return False
+    return True
+
+
+def _retify(stmts, mk):
+    """the statement list with `return e` replaced by the statements mk(e): code
+    after an `if` that contains an exit is moved into both branches, so the
+    result has no return in the middle of a list"""
     import copy
+    out = []
+    for k, st in enumerate(stmts):
+        if isinstance(st, ast.Return):
+            out.extend(mk(st.value if st.value is not None else ast.Constant(value=None)))
+            return out
+        if isinstance(st, ast.Raise):
+            out.append(st)
+            return out
+        if isinstance(st, ast.If) and _has_exit(st):
+            rest = stmts[k + 1:]
+            b = _retify(list(st.body) + copy.deepcopy(rest), mk)
+            o = _retify(list(st.orelse) + copy.deepcopy(rest), mk)
+            out.append(ast.copy_location(ast.If(test=st.test, body=b or [ast.Pass()], orelse=o), st))
+            return out
+        out.append(st)
+    out.extend(mk(ast.Constant(value=None)))
+    return out
+
+
+def _expand_helpers(tree, kind, fn, depth=0):
+    """the codec with calls of helper methods of its class (`x = self.h(a)`,
+    `a, b = self.h(c)`, `return self.h(a)`, `self.h(a)`) replaced by the helper's
+    body - parameters and locals renamed, each `return e` of the helper turned
+    into the caller's statement with e (_retify) - so the layout interpreter
+    sees one function"""
+    import copy
+    counter = [0]
 
     def helper_of(v):
         if isinstance(v, ast.Call) and isinstance(v.func, ast.Attribute) and isinstance(v.func.value, ast.Name) \
@@ -511,24 +616,25 @@ def _expand_helpers(tree, kind, fn, depth=0):
             if r is not None and isinstance(r[1], ast.FunctionDef) and r[1] is not fn:
                 h = r[1]
                 body = [x for x in h.body if not (isinstance(x, ast.Expr) and isinstance(x.value, ast.Constant))]
-                rets = [x for x in ast.walk(h) if isinstance(x, ast.Return)]
-                if body and isinstance(body[-1], ast.Return) and len(rets) == 1 and body[-1].value is not None and \
-                        len(h.args.args) - 1 == len(v.args) and \
-                        all(isinstance(x, (ast.Assign, ast.Expr, ast.AugAssign, ast.Return)) for x in body):
+                if body and len(h.args.args) - 1 == len(v.args) and not h.args.vararg and not h.args.kwarg and \
+                        not h.decorator_list and _inlinable(body) and \
+                        any(isinstance(x, ast.Return) and x.value is not None for x in ast.walk(h)):
                     return h, body
         return None
 
-    def expand(stmts):
+    def expand(stmts, depth):
         out = []
         for st in stmts:
             v = st.value if isinstance(st, (ast.Assign, ast.Return, ast.Expr)) else None
             h = helper_of(v) if v is not None else None
             if h is not None and depth < 3:
                 hfn, body = h
+                counter[0] += 1
+                tag = "%s_%d" % (hfn.name, counter[0])
                 m = {}
                 pre = []
                 for p_, a in zip(hfn.args.args[1:], v.args):
-                    fresh = "__%s_%s_%d" % (hfn.name, p_.arg, st.lineno)
+                    fresh = "__%s_%s" % (tag, p_.arg)
                     m[p_.arg] = fresh
                     pre.append(ast.copy_location(ast.Assign(targets=[ast.Name(id=fresh, ctx=ast.Store())],
                                                             value=a), st))
@@ -536,28 +642,28 @@ def _expand_helpers(tree, kind, fn, depth=0):
                 for x in body:
                     for t in ast.walk(x):
                         if isinstance(t, ast.Name) and isinstance(t.ctx, ast.Store) and t.id not in m:
-                            m[t.id] = "__%s_%s_%d" % (hfn.name, t.id, st.lineno)
+                            m[t.id] = "__%s_%s" % (tag, t.id)
                 rn = _Rename(m)
                 inl = [rn.visit(copy.deepcopy(x)) for x in body]
-                last = inl.pop()
-                out.extend(pre + inl)
                 if isinstance(st, ast.Assign):
-                    out.append(ast.copy_location(ast.Assign(targets=st.targets, value=last.value), st))
+                    mk = lambda e, st=st: [ast.copy_location(ast.Assign(targets=copy.deepcopy(st.targets), value=e), st)]
                 elif isinstance(st, ast.Return):
-                    out.append(ast.copy_location(ast.Return(value=last.value), st))
+                    mk = lambda e, st=st: [ast.copy_location(ast.Return(value=e), st)]
                 else:
-                    out.append(ast.copy_location(ast.Expr(value=last.value), st))
-                for x in out:
+                    mk = lambda e, st=st: [ast.copy_location(ast.Expr(value=e), st)]
+                new = pre + _retify(inl, mk)
+                for x in new:
                     ast.fix_missing_locations(x)
+                out.extend(expand(new, depth + 1))
                 continue
             for field in ("body", "orelse"):
                 if isinstance(getattr(st, field, None), list) and getattr(st, field) and \
                         isinstance(getattr(st, field)[0], ast.stmt):
-                    setattr(st, field, expand(getattr(st, field)))
+                    setattr(st, field, expand(getattr(st, field), depth))
             out.append(st)
         return out
     fn2 = copy.deepcopy(fn)
-    fn2.body = expand(fn2.body)
+    fn2.body = expand(fn2.body, depth)
     return fn2
 
 
